@@ -254,6 +254,13 @@ def rule_operator_order(rep: Report, repo: Repo):
                 and s.value.func.attr == "_multiply_expr":
             phases.append(("numbers", None, s))
     seq = [p[0] for p in phases]
+    # every application of an operator must belong to a recognised phase: a `_multiply_op` somewhere else (a helper, a cache,
+    # a nested block) is a form this rule does not follow, not a verdict
+    in_phase = {id(c) for _k, _d, st in phases if isinstance(st, ast.For) for c in ast.walk(st)}
+    stray = [c for c in ast.walk(outer[0]) if isinstance(c, ast.Call) and isinstance(c.func, ast.Attribute) and c.func.attr == "_multiply_op"
+             and id(c) not in in_phase]
+    if stray:
+        raise AnalysisError(RULE, f"__mul__: `{norm(stray[0])[:60]}` is applied outside a recognised creation / annihilation loop")
     rep.check(seq == ["creation", "numbers", "annihilation"], RULE,
               f"{CLS}.__mul__ right-multiplies by creation operators, then the number part, then annihilation operators",
               f"phases {seq}", loc(m))
